@@ -59,7 +59,7 @@ def main():
         dst = os.path.join(ROOT, "seeded", d)
         os.makedirs(dst, exist_ok=True)
         for f in ("patch.diff", "demo.rs", "README.md"):
-            if os.path.exists(os.path.join(full, f)):
+            if os.path.exists(os.path.join(full, f)) and os.path.abspath(full) != os.path.abspath(dst):
                 shutil.copyfile(os.path.join(full, f), os.path.join(dst, f))
         json.dump(meta, open(os.path.join(dst, "meta.json"), "w"), indent=1)
 
